@@ -34,6 +34,7 @@ def slice_values(kind, e, rnd=None):
     elif kind == 'f': out = ['f']
     elif kind == 's': out = ['s:%d:%d:%d' % (o, x, s) for o in range(e + 1) for x in range(0, e - o + 1) for s in (1, 2, 3, 5)]
     elif kind == 'I': out = ['I:1'] if e >= 2 else []
+    elif kind in 'EC': out = ['%s:%d' % (kind, i) for i in range(e)]      # index given as an unscoped enum / a class type convertible to index_type
     elif kind == 'R': out = ['R:1:3'] if e >= 3 else []
     elif kind == 'S': out = ['S:%d:4:2' % o for o in range(0, e - 4 + 1)]
     elif kind == 'Q': out = ['Q:%d:5:2' % o for o in range(0, e - 5 + 1)]
@@ -50,7 +51,7 @@ def spec_sub(c):
     exts = []; dims = []
     for s, e in zip(c.sl, c.ext):
         k, v = parse_slice(s)
-        if k in 'iI': dims.append((v[0], None))
+        if k in 'iIEC': dims.append((v[0], None))
         elif k in 'rtR': exts.append(v[1] - v[0]); dims.append((v[0], 1))
         elif k == 'f': exts.append(e); dims.append((0, 1))
         else:
